@@ -154,7 +154,9 @@ def run(ctx):
                 # walked downward (children of a job) and through the execution's root job
                 ok = ("Job.parent_id" in t) if col == "parent_id" else True
             else:
-                ok = f"{model}.{col}" in t
+                tmodel = {"task": "Task", "value": "Value", "call_node": "CallNode", "job": "Job", "execution": "Execution", "tag": "Tag"}.get((target or "").split(".")[0])
+                yields = [y for y in ast.walk(wf) if isinstance(y, ast.Yield) and isinstance(y.value, ast.Tuple) and len(y.value.elts) == 3 and src(y.value.elts[1]) == tmodel]
+                ok = f"{model}.{col}" in t and bool(yields)
             r3.check(ok, f"{db.rel}:{wn}:{model}.{col}", f"foreign key {model}.{col} -> {target} is not followed by {wn}: the referenced record is not transferred with its owner", db.rel, wf.lineno)
         tables = {}
         for cname, c in db.classes.items():
